@@ -813,12 +813,28 @@ func runGoReuse(c *Case, tr *Trace) {
 		un, _ := gotype.NewUnfolder(nil)
 		idle := un.VerifDepths()
 		deps := [][]int{}
+		// sub.via: the value travels through an encoder and the format's parser (member names then arrive by
+		// reference); sub.keycache: the optional key cache is on, in the reused and in the fresh unfolder alike
+		via, _ := c.Sub["via"].(string)
+		kc, haskc := c.Sub["keycache"].(float64)
+		if haskc {
+			un.EnableKeyCache(int(kc))
+		}
 		unfoldInto := func(u *gotype.Unfolder, p prog) (VD, error) {
 			q := reflect.New(buildType(&p.T))
 			if err := u.SetTarget(q.Interface()); err != nil {
 				return describe(q.Elem()), err
 			}
-			err := gotype.Fold(newValue(&p.T, &p.V).Elem().Interface(), u, userFolders)
+			val := newValue(&p.T, &p.V).Elem().Interface()
+			if api, ok := formats[via]; ok {
+				sk := &sink{}
+				if err := gotype.Fold(val, api.newVisitor(sk, Opts{IgnoreInvalidFloat: true}), userFolders); err != nil {
+					return describe(q.Elem()), err
+				}
+				err := api.parse(append([]byte(nil), sk.all...), u)
+				return describe(q.Elem()), err
+			}
+			err := gotype.Fold(val, u, userFolders)
 			return describe(q.Elem()), err
 		}
 		for _, h := range hist {
@@ -831,6 +847,9 @@ func runGoReuse(c *Case, tr *Trace) {
 		rR, errR := unfoldInto(un, probe)
 		deps = append(deps, un.VerifDepths())
 		fresh, _ := gotype.NewUnfolder(nil)
+		if haskc {
+			fresh.EnableKeyCache(int(kc))
+		}
 		rF, errF := unfoldInto(fresh, probe)
 		res["rR"], res["rF"], res["deps"], res["idle"] = rR, rF, deps, idle
 		res["errR"], res["errF"] = errStr(errR), errStr(errF)
